@@ -190,6 +190,14 @@ fn main() {
         let ap = inst.random_abstract(nops, live, 3);
         progs.push((inst.instantiate(&ap), mode));
     }
+    // very long programs (code that outgrows the initial executable mapping, frames with many spill slots) and programs
+    // with dozens of input variables (argument offsets beyond one byte)
+    for k in 0..(if quick { 6 } else { 40 }) {
+        let big = k % 2 == 0;
+        let mut inst = Inst::new(rng.next(), Mode::All, if big { 1 + k % 5 } else { 30 + 10 * (k % 4) });
+        let ap = if big { inst.random_abstract([1500, 4000, 2500][k % 3], [16, 30, 60][k % 3], 3) } else { inst.random_abstract(250, 48, 3) };
+        progs.push((inst.instantiate(&ap), Mode::All));
+    }
     // directed families: the same immediate on both sides of every opcode; every opcode at the rounding / domain boundaries
     let ndirected = {
         let d = pgen::directed_programs();
